@@ -17,7 +17,7 @@ import warnings
 import numpy as np
 
 ID = "C04"
-FLAVOUR = "san"
+FLAVOUR = "plain"
 LEVEL = "exploration"
 RULE = (
     "seeded generator of well-formed structures (rules: atom names unique inside a residue; equal residue names imply "
@@ -63,7 +63,7 @@ ASSUMPTIONS = [
 ]
 MIN_CASES_PER_WORKER = 25
 MANIFEST = {
-    "technique": "round-trip / differential oracle on generated structures x {CIF text, BinaryCIF, compressed BinaryCIF}; cross-format agreement; independent model/altloc row filter; synthetic CCD via set_ccd_path; ASan/UBSan build of encoding.c and bonds.c",
+    "technique": "round-trip / differential oracle on generated structures x {CIF text, BinaryCIF, compressed BinaryCIF}; cross-format agreement; independent model/altloc row filter; synthetic CCD via set_ccd_path (plain build: the sanitizer runs of encoding.c and bonds.c belong to C05 and C02)",
     "level_text": "Runtime monitoring: thousands of generated well-formed structures are written and read back through the real set_structure/get_structure in three container formats; every annotation, every float32 coordinate of every model, the typed bond set (compared through unique atom ids) and the unit cell are compared with the input, the three decodings with each other, and model/altloc selections with an independent row filter.  Held-on-observed.",
     "level_note": "Trusts the generator's well-formedness rules (stated in RULE/ASSUMPTIONS), the synthetic component dictionary (validated at start against biotite's own accessors) and numpy.  The real CCD and real-world files are not covered.",
     "design_ref": "DESIGN.md section 6, C04",
